@@ -170,7 +170,14 @@ func (d *deepView) strLang(v ssa.Value, fr *frame, depth int) []seg {
 		case "encoding/hex.EncodeToString":
 			bs, ok := d.byteSeq(x.Call.Args[0], r.fr, 0)
 			if !ok {
-				return opaque()
+				// what is printed is not resolved, but it is lower-case hexadecimal
+				s := seg{kind: "hex", upper: false, digits: -1, val: x.Call.Args[0], fr: r.fr}
+				if n, ok := byteLen(x.Call.Args[0]); ok {
+					s.digits = int(2 * n)
+				} else if mk := makeLenOf(d.resolve(x.Call.Args[0], r.fr).v); mk >= 0 {
+					s.digits = int(2 * mk)
+				}
+				return []seg{s}
 			}
 			var out []seg
 			for _, b := range bs {
